@@ -1569,4 +1569,21 @@ def trace_only_unhappy(run, model, rule="C07.trace-only-unhappy"):
         atoms = [a for (nid, k), (kn, _at) in gg.edge_facts.items() for a, pol in kn if strip_sites(a) == strip_sites(rt)]
         if any(gg.necessary([flow.cfg.entry], [x.id for x in targets], (a, False)) for a in atoms):
             ok = True
+    # ... and always then: once the quantifier was found falsy, nothing returns before the tracing function was built
+    # (the first falsifying assignment is part of every message about a failed quantifier)
+    if ok:
+        tgt_ids = set(x.id for x in targets)
+        for n, rt in real:
+            atoms = [a for (nid, k), (kn, _at) in gg.edge_facts.items() for a, pol in kn if strip_sites(a) == strip_sites(rt)]
+            for a in atoms:
+                for nid, k in gg.edges_where((a, False)):
+                    tn = [x for x in flow.cfg.nodes if x.id == nid][0]
+                    starts = [t for kk, t in tn.succ if kk == k]
+                    seen = gg.reach(starts, lambda n_, k_, t_: t_.id in tgt_ids, None, False)
+                    if flow.cfg.exit_return.id in seen and not (set(s_.id for s_ in starts) & tgt_ids):
+                        rets = [x for x in flow.cfg.nodes if x.kind == "return" and x.id in seen]
+                        w = rets[0] if rets else tn
+                        run.violation(rule, fi.qual + ":always", "after the quantifier was found falsy a path returns without tracing it (`%s`): the message then lacks the first falsifying assignment of the loop variables" % first_line(w.stmt), fi.loc(w), None, first_line(w.stmt))
+                        return
+        run.ok(rule, fi.qual + ":always", "a falsy quantifier is always traced", fi.loc(targets[0]))
     run.check(ok, rule, fi.qual, "the tracing function is generated and run only when the quantifier itself was falsy", "the tracing function is generated and run without the quantifier having been found falsy first: for an empty iteration its result variable is never bound, and an UnboundLocalError (wrapped as 'Failed to recompute') replaces the violation of the contract", fi.loc(targets[0]), None, first_line(targets[0].stmt))
